@@ -389,8 +389,65 @@ def rule_panic(ctx, F):
                 ctx.ob(R, b, "%s!#%d under request content" % (macros[0], seen[k]), False,
                        "%s!() is reached under a branch on request content (%s): a hostile request panics the server"
                        % (macros[0], sorted(set(ctrl))), b.where(bi))
+    # a wildcard arm `_ => unreachable!()` behind *guarded* arms: a listed value whose guards all fail falls through to it
+    nf = 0
+    for p, b in sorted(F.bodies.items()):
+        if not p.startswith(("net::server::", "<net::server::")) or "::test" in p or not b.file.startswith("src/net/server/"):
+            continue
+        us = [bi for bi in b.reachable_blocks()
+              if b.blocks[bi]["t"]["k"] == "call" and re.search(r"core::panicking::", b.blocks[bi]["t"]["fn"] or "")
+              and "unreachable" in (b.blocks[bi]["t"].get("x") or [])]
+        for u in us:
+            for sw in sorted(b.reachable_blocks()):
+                tm = b.blocks[sw]["t"]
+                if tm["k"] != "switch" or tm["ty"] == "bool" or not b.dominates(sw, u):
+                    continue
+                # only a match whose wildcard is the panic: the otherwise edge leads (linearly) to it
+                ot = b.edge_target(sw, ("o",))
+                if ot is None:
+                    continue
+                # the wildcard arm *is* the panic: from the otherwise edge a straight line (no further branching) leads to it
+                cur, straight = ot, False
+                for _ in range(8):
+                    if cur == u:
+                        straight = True
+                        break
+                    nx = [s for s, _l in b.succs(cur)]
+                    if len(nx) != 1:
+                        break
+                    cur = nx[0]
+                if not straight:
+                    continue
+                xs = b.blocks[u]["t"].get("x") or []
+                if any("select" in str(m) or "join" in str(m) for m in xs):
+                    continue            # generated by tokio::select! / join!, not a match written in the crate
+                from rulelib import value_states
+                at, keyfn = value_states(b, F)
+                if at is None:
+                    ctx.undecided_item(R, p, "value exploration exceeded its budget")
+                    continue
+                bf_ = BranchFacts(b, F)
+                ef = bf_.edge_facts(sw)
+                key = None
+                for lab, (tmx, vx) in ef.items():
+                    if isinstance(vx, tuple) and vx[0] in ("eq", "ne"):
+                        key = keyfn(tmx)
+                if key is None:
+                    continue
+                for v, tgt in tm["v"]:
+                    if tgt == ot:
+                        continue
+                    nf += 1
+                    # is the panic reachable on a path on which the matched value is v?
+                    live = [st for st in at.get(u, set()) if st != "DEAD" and dict(st).get(key) == ("eq", v)]
+                    ctx.ob(R, b, "listed value %s of the match cannot fall through to unreachable!()" % v, not live,
+                           "%s: every arm for the value %s has a guard (`if ..`) that can fail while the value is %s; the match then falls "
+                           "through to `_ => unreachable!()` -- an AXFR query over TCP that carries a SOA in its authority section makes "
+                           "the data provider return diffs, no arm takes it and the server task panics"
+                           % (p.split("::{closure")[0].split("::")[-1], v, v), b.where(u))
+    ctx.call_sites += nf
     ctx.ob(R, "net::server", "scanned", True, nontrivial=False,
-           detail="%d server bodies scanned, %d unwrap/panic sites examined" % (scope, n))
+           detail="%d server bodies scanned, %d unwrap/panic sites examined, %d guarded match values" % (scope, n, nf))
     ctx.call_sites += n
 
 
